@@ -249,6 +249,8 @@ type reqRec struct {
 	inMap    bool // registered and removal not yet observed
 	rmPend   bool // verdict delivered, removal not yet observed
 	lat      time.Duration
+	ttl      time.Duration // TTL of the processor it was sent to
+	pi       int           // which processor (two-processor cases)
 }
 
 type sim struct {
@@ -269,6 +271,10 @@ type sim struct {
 	scanned bool // while held: the watcher had real time for a scan since the clock last moved
 	onGate  func()
 	l1      public_types.SharedQueueI
+	duo     bool // two processors A (0) and B (1) on one shared state and one quota
+	procs   [2]stream_types.ProcessorI
+	lcs     [2]*loopClock
+	ttls    [2]time.Duration
 	reqs    []*reqRec
 	gateQ   []*reqRec
 	handled int
@@ -376,6 +382,153 @@ func (s *sim) setup(w []string) string {
 	return "ok"
 }
 
+// setup2: two Queue processors A and B built over ONE shared memory state and the SAME quota id (two
+// flows queuing on one quota); each has its own loop timer.
+func (s *sim) setup2(w []string) string {
+	var size, ttl [2]int64
+	var ok [7]bool
+	size[0], ok[0] = kvI(w, "sizea")
+	ttl[0], ok[1] = kvI(w, "ttla")
+	size[1], ok[2] = kvI(w, "sizeb")
+	ttl[1], ok[3] = kvI(w, "ttlb")
+	max, ok4 := kvI(w, "max")
+	win, ok5 := kvI(w, "win")
+	t0, ok6 := kvI(w, "t0")
+	ok[4], ok[5], ok[6] = ok4, ok5, ok6
+	for _, o := range ok {
+		if !o {
+			return "bad-op"
+		}
+	}
+	if ttl[0] <= 0 || ttl[1] <= 0 || win <= 0 {
+		return "bad-op"
+	}
+	os.Setenv("LUNAR_SPOE_PROCESSING_TIMEOUT_SEC", "30")
+	s.duo = true
+	s.w = &world{enq: map[string]int{}, removed: map[string]bool{}}
+	ctx, cancel := context.WithCancel(context.Background())
+	s.cancel = cancel
+	cm := context_manager.Get()
+	cm.WithContext(ctx)
+	s.c = sched.New()
+	verifhook.Install(&ctl{s.c})
+	cm.SetMockClock()
+	s.mock = cm.GetMockClock()
+	s.now = time.UnixMilli(t0)
+	s.mock.Set(s.now)
+	s.c.Gate(ptDone, true)
+	caseSeq++
+	quotaID := fmt.Sprintf("q%d", caseSeq)
+	strategy := &quota_resource.StrategyConfig{FixedWindow: &quota_resource.FixedWindowConfig{
+		QuotaLimit: quota_resource.QuotaLimit{Max: max, Interval: win, IntervalUnit: "second"}}}
+	rm, err := resources.NewResourceManagement()
+	if err != nil {
+		return "err:resources"
+	}
+	rm, err = rm.WithQuotaData([]*quota_resource.QuotaResourceData{{Quotas: []*quota_resource.QuotaConfig{{
+		ID: quotaID, Filter: &stream_config.Filter{Name: quotaID, URL: "api.example.com/*"}, Strategy: strategy}}}})
+	if err != nil {
+		return "err:quota"
+	}
+	groups := map[string]any{}
+	for p := 0; p <= 20; p++ {
+		groups[fmt.Sprintf("g%d", p)] = p
+	}
+	shared := &stateProbe{SharedStateI: lunar_context.NewMemoryState[string]().WithClock(s.mock), w: s.w}
+	res := &resProbe{inner: rm, w: s.w}
+	for pi := 0; pi < 2; pi++ {
+		s.ttls[pi] = time.Duration(ttl[pi]) * time.Second
+		s.lcs[pi] = &loopClock{base: s.mock}
+		md := &stream_types.ProcessorMetaData{
+			Name:         fmt.Sprintf("queue%c%s", 'A'+pi, quotaID),
+			SharedMemory: shared,
+			Clock:        s.lcs[pi],
+			Parameters: map[string]stream_types.ProcessorParam{
+				"quota_id":                 param("quota_id", quotaID),
+				"queue_size":               param("queue_size", int(size[pi])),
+				"redis_queue_size":         param("redis_queue_size", -1),
+				"ttl_seconds":              param("ttl_seconds", int(ttl[pi])),
+				"priority_group_by_header": param("priority_group_by_header", "x-prio"),
+				"priority_groups":          param("priority_groups", groups),
+			},
+			Resources: res,
+		}
+		p, err := queue_processor.NewProcessor(md)
+		if err != nil {
+			return "err:processor:" + proto.Enc(err.Error())
+		}
+		s.procs[pi] = p
+		lc := s.lcs[pi]
+		if !s.until(func() bool { return lc.Parked() }, 5*time.Second) {
+			return "stuck:loop-start"
+		}
+	}
+	s.ttl = s.ttls[0]
+	s.ready = true
+	return "ok"
+}
+
+func (s *sim) arrive2(w []string) string {
+	id, ok := kvI(w, "id")
+	prio, ok2 := s.parsePrio(w)
+	pr, ok3 := proto.KV(w, "proc")
+	if !ok || !ok2 || !ok3 || int(id) != len(s.reqs) || (pr != "a" && pr != "b") {
+		return "bad-op"
+	}
+	pi := 0
+	if pr == "b" {
+		pi = 1
+	}
+	r := s.spawnOn(int(id), prio, pi)
+	if !s.until(func() bool { return isDone(r) || s.enqSeen(r) }, 5*time.Second) {
+		return "stuck:arrive"
+	}
+	if isDone(r) {
+		r.returned = true
+		if r.verdict == "blocked" {
+			return "blocked"
+		}
+		return "unexpected:" + r.verdict
+	}
+	r.waiting, r.inMap = true, true
+	return "queued"
+}
+
+// tick2: clock +100 ms; both TTL watchers; then one pass of each loop in the given order.
+func (s *sim) tick2(w []string) string {
+	ord, ok := proto.KV(w, "order")
+	if !ok || (ord != "ab" && ord != "ba") || len(w) != 2 {
+		return "bad-op"
+	}
+	s.now = s.now.Add(100 * time.Millisecond)
+	s.mock.Set(s.now)
+	to, bad := s.watcherPhase()
+	logs := [2]string{"-", "-"}
+	order := []int{0, 1}
+	if ord == "ba" {
+		order = []int{1, 0}
+	}
+	for _, pi := range order {
+		s.w.mu.Lock()
+		s.w.events = nil
+		s.w.mu.Unlock()
+		lc := s.lcs[pi]
+		lc.Fire()
+		okp := s.pump(func() bool { return lc.Parked() }, 5*time.Second, s.onAllowed)
+		s.w.mu.Lock()
+		evs := append([]string(nil), s.w.events...)
+		s.w.mu.Unlock()
+		if !okp {
+			evs = append(evs, "stuck")
+		}
+		if !s.awaitRemovals() {
+			evs = append(evs, "stuck-removal")
+		}
+		logs[pi] = joinOr(evs)
+	}
+	return "to=" + sortedIDs(to, bad) + " a=" + logs[0] + " b=" + logs[1]
+}
+
 func (s *sim) until(cond func() bool, d time.Duration) bool {
 	deadline := time.Now().Add(d)
 	for !cond() {
@@ -396,8 +549,14 @@ func isDone(r *reqRec) bool {
 	}
 }
 
-func (s *sim) spawn(id int, prio string) *reqRec {
-	r := &reqRec{id: id, sid: fmt.Sprintf("r%d", id), done: make(chan struct{}), started: time.Now()}
+func (s *sim) spawn(id int, prio string) *reqRec { return s.spawnOn(id, prio, 0) }
+
+func (s *sim) spawnOn(id int, prio string, pi int) *reqRec {
+	r := &reqRec{id: id, sid: fmt.Sprintf("r%d", id), done: make(chan struct{}), started: time.Now(), ttl: s.ttl, pi: pi}
+	proc := s.proc
+	if s.duo {
+		proc, r.ttl = s.procs[pi], s.ttls[pi]
+	}
 	if !s.real {
 		r.arrival = s.now
 	}
@@ -415,7 +574,7 @@ func (s *sim) spawn(id int, prio string) *reqRec {
 				r.verdict = "panic:" + proto.Enc(fmt.Sprint(p))
 			}
 		}()
-		io, err := s.proc.Execute("flow", api)
+		io, err := proc.Execute("flow", api)
 		r.lat = time.Since(r.started)
 		if err != nil {
 			r.verdict = "err"
@@ -580,7 +739,7 @@ func sortedIDs(rs []*reqRec, bad []string) string {
 func (s *sim) watcherPhase() ([]*reqRec, []string) {
 	expired := 0
 	for _, r := range s.reqs {
-		if r.waiting && s.now.After(r.arrival.Add(s.ttl)) {
+		if r.waiting && s.now.After(r.arrival.Add(r.ttl)) {
 			expired++
 		}
 	}
@@ -752,7 +911,7 @@ func (s *sim) tickRelease() string {
 	// at once when the attempt is over: verdict within 0.7 TTL of wall clock (TTL >= 1 s)
 	var heldReq *reqRec
 	for _, r := range s.reqs {
-		if r.id == s.heldID && r.waiting && s.now.After(r.arrival.Add(s.ttl)) {
+		if r.id == s.heldID && r.waiting && s.now.After(r.arrival.Add(r.ttl)) {
 			heldReq = r
 		}
 	}
@@ -785,7 +944,7 @@ func (s *sim) tickRelease() string {
 	expired := func() int {
 		n := 0
 		for _, r := range s.reqs {
-			if r.waiting && s.now.After(r.arrival.Add(s.ttl)) {
+			if r.waiting && s.now.After(r.arrival.Add(r.ttl)) {
 				n++
 			}
 		}
@@ -822,7 +981,7 @@ func (s *sim) advance(w []string) string {
 	// rejected late by construction of the schedule, not by the implementation)
 	then := s.now.Add(time.Duration(ms) * time.Millisecond)
 	for _, r := range s.reqs {
-		if r.waiting && r.id != s.heldID && then.After(r.arrival.Add(s.ttl)) {
+		if r.waiting && r.id != s.heldID && then.After(r.arrival.Add(r.ttl)) {
 			return "bad-op"
 		}
 	}
@@ -1115,6 +1274,27 @@ func runCase(ops []string, emit func(string)) {
 			emit(s.queueOp(w))
 			continue
 		}
+		if w[0] == "cfg2" {
+			if s.ready || s.l1 != nil {
+				emit("bad-op")
+			} else {
+				emit(s.setup2(w))
+			}
+			continue
+		}
+		if s.duo {
+			switch {
+			case !s.ready:
+				emit("bad-op")
+			case w[0] == "arrive":
+				emit(s.arrive2(w))
+			case w[0] == "tick":
+				emit(s.tick2(w))
+			default:
+				emit("bad-op")
+			}
+			continue
+		}
 		if w[0] == "cfg" {
 			if s.ready || s.l1 != nil {
 				emit("bad-op")
@@ -1317,7 +1497,17 @@ func execCase(c proto.Case, o *proto.Out) []string {
 				refused += n
 				o.Count("tick-with-timeouts")
 			}
-			if l, _ := proto.KV(aw, "log"); l != "-" {
+			for _, key := range []string{"a", "b"} {
+				if l, ok := proto.KV(aw, key); ok && l != "-" {
+					for _, e := range strings.Split(l, ",") {
+						if strings.HasPrefix(e, "v:") {
+							allowed++
+							o.Count("verdict-allowed-two-processors")
+						}
+					}
+				}
+			}
+			if l, ok := proto.KV(aw, "log"); ok && l != "-" {
 				for _, e := range strings.Split(l, ",") {
 					switch {
 					case strings.HasPrefix(e, "v:"):
@@ -1694,6 +1884,33 @@ func genArriveTick(r *prng.R) []string {
 	return ops
 }
 
+// two Queue processors on ONE shared state and ONE quota id (two flows queuing on the same quota):
+// each has its own queue, watch list, loop and TTL watcher; arrivals interleaved between them, ticks of
+// both loops in either order
+func genDuo(r *prng.R) []string {
+	ttlA, ttlB := r.Range(1, 2), r.Range(1, 2)
+	if r.Chance(60) {
+		ttlA, ttlB = 2, 2
+	}
+	off := 100 * r.Intn(10)
+	ops := []string{fmt.Sprintf("cfg2 sizea=%d ttla=%d sizeb=%d ttlb=%d max=%d win=%d t0=%d",
+		r.Range(1, 4), ttlA, r.Range(1, 4), ttlB, r.Range(1, 3), r.Range(1, 2), baseMs+off)}
+	id := 0
+	spread := r.Range(1, 3)
+	for n := r.Range(10, 30); n > 0; n-- {
+		if r.Chance(35) {
+			ops = append(ops, fmt.Sprintf("arrive id=%d prio=%s proc=%s", id, genPrio(r, spread), prng.Pick(r, []string{"a", "b"})))
+			id++
+		} else {
+			ops = append(ops, "tick order="+prng.Pick(r, []string{"ab", "ba"}))
+		}
+	}
+	for t := r.Range(3, 12); t > 0; t-- {
+		ops = append(ops, "tick order="+prng.Pick(r, []string{"ab", "ba"}))
+	}
+	return ops
+}
+
 // plain shutdown with waiters
 func genDrain(r *prng.R) []string {
 	ops := []string{genCfg(r, r.Range(1, 4), 2, r.Range(0, 1), 3)}
@@ -1795,9 +2012,9 @@ func malformed(r *prng.R) []string {
 }
 
 func gen(r *prng.R, f proto.Flags, emit func(proto.Case)) {
-	nShort, nLong, nOverlap, nHold, nDrain, nWall, nBad, nBound, nFifo, nHoldExp, nRepush, nHeap, nAttempt, nQueue, nPublish := 26, 12, 6, 6, 5, 1, 4, 2, 6, 2, 6, 8, 3, 300, 10
+	nShort, nLong, nOverlap, nHold, nDrain, nWall, nBad, nBound, nFifo, nHoldExp, nRepush, nHeap, nAttempt, nQueue, nPublish, nDuo := 26, 12, 6, 6, 5, 1, 4, 2, 6, 2, 6, 8, 3, 300, 10, 12
 	if f.Tier == "thorough" {
-		nShort, nLong, nOverlap, nHold, nDrain, nWall, nBad, nBound, nFifo, nHoldExp, nRepush, nHeap, nAttempt, nQueue, nPublish = 600, 200, 120, 120, 80, 6, 10, 20, 100, 25, 120, 40, 15, 3000, 150
+		nShort, nLong, nOverlap, nHold, nDrain, nWall, nBad, nBound, nFifo, nHoldExp, nRepush, nHeap, nAttempt, nQueue, nPublish, nDuo = 600, 200, 120, 120, 80, 6, 10, 20, 100, 25, 120, 40, 15, 3000, 150, 150
 	}
 	id := 0
 	add := func(prefix string, ops []string) {
@@ -1852,6 +2069,9 @@ func gen(r *prng.R, f proto.Flags, emit func(proto.Case)) {
 		}
 		for k := 0; k < nPublish; k++ {
 			add("u", genArriveTick(r.Fork()))
+		}
+		for k := 0; k < nDuo; k++ {
+			add("t", genDuo(r.Fork()))
 		}
 		if b > 0 {
 			// widened search (budget > 1): only the classes that cost no real time are multiplied
